@@ -191,6 +191,13 @@ inline Stats& stats()
     return s;
 }
 
+// command-line options of the worker (--key value), visible to engines
+inline std::map<std::string, std::string>& options()
+{
+    static std::map<std::string, std::string> o;
+    return o;
+}
+
 // Crash-class outcomes (assert, abort, SIGSEGV, CPU budget) end the process on
 // purpose; before dying the result is delivered according to the mode the
 // process is in.
@@ -254,6 +261,8 @@ struct Engine
     std::function<std::vector<Op>(const Plan&, const Op&)> shrink_op;
     // candidates for simpler plan heads (e.g. smaller capacity); may be empty
     std::function<std::vector<Plan>(const Plan&)> shrink_head;
+    // turn a sweep plan into a single-point plan using what the failing run reported
+    std::function<Plan(const Plan&, const Result&)> refine;
 };
 
 // Execute in a forked child so that crash-class outcomes become results.
@@ -418,6 +427,7 @@ inline int worker_main(int argc, char** argv, const Engine& e)
         else
             pos.push_back(a);
     }
+    options() = opt;
     if(pos.empty())
     {
         fprintf(stderr, "usage: run|exec|min|gen ...\n");
@@ -503,6 +513,12 @@ inline int worker_main(int argc, char** argv, const Engine& e)
             return 2;
         }
         MinStats ms;
+        if(e.refine)
+        {
+            Plan rp = e.refine(p, r0);
+            Result r1 = exec_forked(e, rp);
+            if(r1.violation && r1.signature == r0.signature) p = rp;
+        }
         std::size_t before = p.ops.size();
         Plan q = minimise(e, p, r0.signature, ms, opt.count("budget") ? atoi(opt["budget"].c_str()) : 600);
         q.set("expect", r0.signature);
